@@ -243,6 +243,7 @@ def gen_tables() -> str:
     handlers: dict[str, str] = {}
     mods = []
     can_delegate, has_targets, can_remote, has_get_desc = [], [], [], []
+    runs_scripts: list[str] = []
     try:
         names = sorted(os.listdir(cli_dir))
     except OSError:
@@ -270,6 +271,14 @@ def gen_tables() -> str:
                 cmds = []
         for c in cmds:
             handlers.setdefault(c, stem)
+        rs = module_assign(m, "RUNS_SCRIPTS")
+        if rs is not None:
+            # getattr(handler, "RUNS_SCRIPTS", False) is used for its truth value
+            if isinstance(rs, ast.Constant):
+                if rs.value:
+                    runs_scripts.append(stem)
+            else:
+                MISSING.append("cli/" + fn + ":RUNS_SCRIPTS")
         src = ast.dump(m)
         for n in ast.walk(m):
             if isinstance(n, ast.Constant) and n.value == "delegate" and stem not in can_delegate:
@@ -322,6 +331,9 @@ def gen_tables() -> str:
         "",
         "/-- handler modules whose source passes `remote=` -/",
         "def remoteModules : List String := " + lean_list(sorted(can_remote)),
+        "",
+        "/-- commands whose handler module sets a truthy `RUNS_SCRIPTS` -/",
+        "def runsScriptsCommands : List String := " + lean_list([k for k in handler_names if handlers[k] in runs_scripts]),
         "",
         "/-- handler modules defining `get_description` -/",
         "def descModules : List String := " + lean_list(sorted(has_get_desc)),
